@@ -208,15 +208,37 @@ theorem C18_upload_part_copy_refines_partial (H : Hashes) (dl : Nat) {s : State}
       (StoreSpec.step H (abs s) (.uploadPartCopy who b k u n sb sk range)).1 ∧
     Inv (step H dl s (.uploadPartCopy who b k u n sb sk range)).1 := uploadPartCopy_refines H dl hi hg
 
-/-- list_parts (part numbers and sizes, ascending); of an upload that does not exist: `NoSuchUpload` on both sides (4609ab3;
-    before, an empty list: fs:list-parts-unknown-upload). Partial — excluded: another key than the upload's
-    (fs:upload-not-bound-to-key); the order in which the real code returns parts is not part of the model
-    (fs:list-parts-unordered) -/
+/-- list_parts: the part numbers and sizes uploaded so far, in ascending part-number order (`C18_list_parts_exact`) — the
+    order is part of the answer on both sides: the code sorts the parts it read from the directory (1d762a7; before, it
+    returned them in directory-read order and the comparison with the real code had to ignore the order:
+    fs:list-parts-unordered); of an upload that does not exist: `NoSuchUpload` on both sides (4609ab3; before, an empty
+    list: fs:list-parts-unknown-upload). Partial — excluded only: another key than the upload's
+    (fs:upload-not-bound-to-key) -/
 theorem C18_list_parts_refines_partial (H : Hashes) (dl : Nat) {s : State} (hi : Inv s) {who : Who} {b k : Bytes}
     {u : UploadRef} (hg : ListPartsOk s b k u) :
     (step H dl s (.listParts who b k u)).2 = (StoreSpec.step H (abs s) (.listParts who b k u)).2 ∧
     abs (step H dl s (.listParts who b k u)).1 = (StoreSpec.step H (abs s) (.listParts who b k u)).1 ∧
     Inv (step H dl s (.listParts who b k u)).1 := listParts_refines H dl hi hg
+
+/-- what the store's answer to list_parts is (so, by the theorem above, the backend's): exactly the parts uploaded so far, each
+    once with its size, in strictly ascending part-number order (the parts of an upload are keyed by their number:
+    `keysNodup`, which `alInsert` maintains) -/
+theorem C18_list_parts_exact (parts : List (Int × Bytes)) (hnd : keysNodup parts) :
+    (sortParts (parts.map fun p => (p.1, p.2.length))).Pairwise (fun x y => x.1 < y.1) ∧
+    ∀ n sz, (n, sz) ∈ sortParts (parts.map fun p => (p.1, p.2.length)) ↔ ∃ c, (n, c) ∈ parts ∧ sz = c.length := by
+  constructor
+  · apply sortParts_strict
+    unfold keysNodup at hnd ⊢
+    rw [List.map_map]
+    exact hnd
+  · intro n sz
+    rw [sortParts_mem, List.mem_map]
+    constructor
+    · rintro ⟨p, hp, he⟩
+      simp only [Prod.mk.injEq] at he
+      exact ⟨p.2, by rw [← he.1]; exact hp, he.2.symm⟩
+    · rintro ⟨c, hc, rfl⟩
+      exact ⟨(n, c), hc, rfl⟩
 
 /-- complete_multipart_upload: the object becomes the concatenation of the listed parts in part order with the upload's
     metadata, the upload is gone; an identity other than the creator gets `AccessDenied` and changes nothing; an upload that
@@ -413,6 +435,11 @@ example :
       .completeMultipartUpload alice bka kA (some 1) (some [some 1]), .getObject bka kA none]
     GoodRun H0 4096 {} ops ∧ (run H0 4096 {} ops).2.getLast? = some (.get [2] 1 none (some (etagOf H0 [2])) [] {}) := by
   decide
+/-- parts uploaded out of order (3, 1, 2) are listed in ascending order, inside `Good` -/
+example :
+    let ops : List Op := [.createBucket bka, .createMultipartUpload alice bka kA none, .uploadPart alice bka kA (some 1) 3 [7],
+      .uploadPart alice bka kA (some 1) 1 [8, 9], .uploadPart alice bka kA (some 1) 2 [], .listParts alice bka kA (some 1)]
+    GoodRun H0 4096 {} ops ∧ (run H0 4096 {} ops).2.getLast? = some (.parts [(1, 2), (2, 0), (3, 1)]) := by decide
 /-- the owner's failing completes are inside `Good`, are refused, and leave the upload in place -/
 example : Good (run H0 4096 {} (demo.take 25)).1 (demo.getD 25 .listBuckets) ∧
     (run H0 4096 {} (demo.take 28)).2.drop 25 = [.err .InvalidPart, .part (some (etagOf H0 [5])), .err .EntityTooSmall] ∧
